@@ -127,9 +127,12 @@ func (_ *SprayAndWait) DispatchingAllowed(_ BundleDescriptor) bool {
 // The bundle's originator will distribute Multiplicity copies amongst its peers
 // Forwarders will only every deliver the bundle to its final destination
 func (sw *SprayAndWait) SenderForBundle(bp BundleDescriptor) (css []cla.ConvergenceSender, del bool) {
-	sw.dataMutex.RLock()
+	// The metadata is read, modified and written back under one lock, compare ReportFailure. The same bundle might
+	// be forwarded from different goroutines at once, e.g., by the periodic retry and due to a new peer.
+	sw.dataMutex.Lock()
+	defer sw.dataMutex.Unlock()
+
 	metadata, ok := sw.bundleData[bp.Id]
-	sw.dataMutex.RUnlock()
 	if !ok {
 		log.WithFields(log.Fields{
 			"bundle": bp.ID(),
@@ -167,9 +170,7 @@ func (sw *SprayAndWait) SenderForBundle(bp BundleDescriptor) (css []cla.Converge
 		}
 	}
 
-	sw.dataMutex.Lock()
 	sw.bundleData[bp.Id] = metadata
-	sw.dataMutex.Unlock()
 
 	log.WithFields(log.Fields{
 		"bundle":              bp.ID(),
@@ -321,9 +322,11 @@ func (_ *BinarySpray) DispatchingAllowed(_ BundleDescriptor) bool {
 // If a node has more than 1 copy left it will send floor(copies/2) to the peer
 // and keep roof(copies/2) for itself
 func (bs *BinarySpray) SenderForBundle(bp BundleDescriptor) (css []cla.ConvergenceSender, del bool) {
-	bs.dataMutex.RLock()
+	// The metadata is read, modified and written back under one lock, compare SprayAndWait.SenderForBundle.
+	bs.dataMutex.Lock()
+	defer bs.dataMutex.Unlock()
+
 	metadata, ok := bs.bundleData[bp.Id]
-	bs.dataMutex.RUnlock()
 	if !ok {
 		log.WithFields(log.Fields{
 			"bundle": bp.ID(),
@@ -373,9 +376,7 @@ func (bs *BinarySpray) SenderForBundle(bp BundleDescriptor) (css []cla.Convergen
 		}
 	}
 
-	bs.dataMutex.Lock()
 	bs.bundleData[bp.Id] = metadata
-	bs.dataMutex.Unlock()
 
 	log.WithFields(log.Fields{
 		"bundle":              bp.ID(),
